@@ -22,9 +22,11 @@ Allowed(p, q) ==
        \cup {c[p.j + 1] : c \in {d \in PCands(p, q) : Len(d) > p.j}}
        \cup (IF \E c \in PCands(p, q) : Len(c) = p.j THEN {END} ELSE {})
 \* effect of a mutation of the container on a live iterator
-PitAddRemove(p) == IF p.live THEN [p EXCEPT !.touched = TRUE, !.structural = p.started] ELSE p
+\* once only a panic is allowed the rest of the iterator state is irrelevant: normalise it
+Doomed == [live |-> TRUE, j |-> 0, cands |-> {}, started |-> TRUE, touched |-> TRUE, structural |-> TRUE]
+PitAddRemove(p) == IF p.live THEN (IF p.started THEN Doomed ELSE [p EXCEPT !.touched = TRUE]) ELSE p
 PitTouch(p) == IF p.live THEN [p EXCEPT !.touched = TRUE] ELSE p
-PitSet(p, i, v) == IF p.live
+PitSet(p, i, v) == IF p.live /\ ~p.structural
                    THEN [p EXCEPT !.touched = TRUE, !.cands = @ \cup {[c EXCEPT ![i + 1] = v] : c \in {d \in p.cands : Len(d) > i}}]
                    ELSE p
 \* effect of the iterator's own Next returning res (q = contents at that moment)
